@@ -127,7 +127,7 @@ def run(ctx):
     ctx.cov["driver"] = st
     results = json.load(open(res))
     rows = vlib.read_nd(tr)
-    if st.get("accepted", 0) < 20 or st.get("refused", 0) < 3 or st.get("kind:multi-notx", 0) < 1:
+    if st.get("accepted", 0) < 20 or st.get("refused", 0) < 3 or st.get("kind:multi-notx", 0) < 1 or st.get("live", 0) < 1:
         raise vlib.Undecided("driver did not exercise the pipeline: %s" % st)
 
     # binding self-test on the first (fault-free, single-statement) run: accepted as is, rejected when one label is changed
